@@ -187,8 +187,26 @@ func writeIsTriviallySerializableSpecializations(w *formatting.IndentedWriter, e
 	w.WriteStringln("#pragma GCC diagnostic ignored \"-Winvalid-offsetof\"")
 	w.WriteStringln("#endif\n")
 
+	// A record that differs from its definition in a previous version is read and written
+	// through compatibility serializers for that version, under the same C++ type. Containers
+	// choose the memcpy fast path by element type alone, which would bypass those serializers,
+	// so such records are not declared trivially serializable.
+	changedInSomeVersion := make(map[string]bool)
+	for _, ns := range env.Namespaces {
+		for _, changes := range ns.DefinitionChanges {
+			for _, change := range changes {
+				if latest := change.LatestDefinition(); latest != nil {
+					changedInSomeVersion[latest.GetDefinitionMeta().GetQualifiedName()] = true
+				}
+			}
+		}
+	}
+
 	for _, ns := range env.Namespaces {
 		for _, td := range ns.TypeDefinitions {
+			if changedInSomeVersion[td.GetDefinitionMeta().GetQualifiedName()] {
+				continue
+			}
 			writeIsTriviallySerializableSpecialization(w, td)
 		}
 	}
